@@ -1,3 +1,4 @@
+from datetime import datetime, timedelta
 from typing import Sequence
 
 from visions.backends.python.series_utils import (
@@ -11,4 +12,8 @@ from visions.types.object import Object
 @sequence_not_empty
 @sequence_handle_none
 def object_contains(sequence: Sequence, state: dict) -> bool:
-    return any(not isinstance(value, (float, bool, int, complex)) for value in sequence)
+    # datetime and timedelta values have types of their own next to Object (DateTime, TimeDelta)
+    return any(
+        not isinstance(value, (float, bool, int, complex, datetime, timedelta))
+        for value in sequence
+    )
